@@ -221,6 +221,20 @@ def run(facts, rep, tier):
                     ok = bool(b_) and b_[0] == "let" and b_[1] is lets[0] and b_[2] == 0 and not drops
                     if b_ and b_[0] == "let" and b_[1] is not lets[0]:
                         got_txt = src(b_[1].get("init") or {})[:100]
+            if ok:
+                # .. and nothing removes elements from it in between
+                from lib import uses_of_let, MUTATING
+                for u_ in uses_of_let(h, lets[0]):
+                    if u_.get("path") != (lets[0]["pat"]["pats"][0].get("name")):
+                        continue
+                    par_ = anc_of.get(id(u_), ())
+                    par_ = par_[-1] if par_ else {}
+                    if par_.get("k") == "ref":
+                        pp_ = anc_of.get(id(par_), ())
+                        par_ = pp_[-1] if pp_ else par_
+                    if par_.get("k") == "mcall" and strip_refs(par_.get("recv")) is u_ and par_["name"] in (set(MUTATING) | {"retain", "retain_mut", "dedup_by_key", "drain", "split_off", "truncate", "clear", "pop", "remove", "swap_remove"}) - {"push", "insert", "extend", "append"}:
+                        ok = False
+                        got_txt = src(par_)[:100]
             rep.ob("C07.W3", "boxed-are-the-snipped", ok, "box ids are allocated for every child on the partition's true side" if ok else
                    "the children that get a Box are `%s`, not every child found in the active set: a back edge that is not boxed leaves its cycle uncut (both ends are already marked visited, so it is never looked at again)" % got_txt, lets[0].get("sp"))
             desc = [n for n, _ in nodes(h["body"], "struct") if "Processing" in n["path"] and any(f[0] == "children_ids" and src(f[1]) == names[1] for f in n["fields"])]
